@@ -292,17 +292,27 @@ abbrev Stat := Nat → KS
 def kindBucket (role : Nat) : Nat := if role = 3 then 2 else 1
 def roleBucket (role : Nat) : Nat := role + 2
 
-/-- `incrValidatorsStat`: role bucket, kind bucket, global bucket -/
-def incrStat (s : Stat) (v : Val) : Stat :=
+/-- `incrValidatorsStat` as the Go code does it: role bucket, then kind bucket, then global bucket -/
+def incrStatSeq (s : Stat) (v : Val) : Stat :=
   let s1 := upd s (roleBucket v.role) ((s (roleBucket v.role)).addVal v)
   let s2 := upd s1 (kindBucket v.role) ((s1 (kindBucket v.role)).addVal v)
   upd s2 0 ((s2 0).addVal v)
 
-/-- `decrValidatorsStat` -/
-def decrStat (s : Stat) (v : Val) : Stat :=
+/-- `decrValidatorsStat`, sequential form -/
+def decrStatSeq (s : Stat) (v : Val) : Stat :=
   let s1 := upd s (roleBucket v.role) ((s (roleBucket v.role)).subVal v)
   let s2 := upd s1 (kindBucket v.role) ((s1 (kindBucket v.role)).subVal v)
   upd s2 0 ((s2 0).subVal v)
+
+/-- `incrValidatorsStat`: the three buckets are pairwise different, so the sequential updates amount to one
+pointwise update (`incrStat_eq_seq` in ProofsVal.lean).  This form looks the old map up ONCE per lookup, which
+keeps long undo chains linear when the model is executed. -/
+def incrStat (s : Stat) (v : Val) : Stat := fun i =>
+  if i = roleBucket v.role ∨ i = kindBucket v.role ∨ i = 0 then (s i).addVal v else s i
+
+/-- `decrValidatorsStat` -/
+def decrStat (s : Stat) (v : Val) : Stat := fun i =>
+  if i = roleBucket v.role ∨ i = kindBucket v.role ∨ i = 0 then (s i).subVal v else s i
 
 /-- `Validator.StakeEqual` -/
 def stakeEqual (x y : Val) : Bool := x.role == y.role && x.stake == y.stake && x.token == y.token && x.status == y.status
